@@ -31,8 +31,13 @@ GRID_SIZE = len(GRID)
 _counter = [0]
 
 
+_order = [0]
+
+
 def header(s, h, val):
-    return "fallback strategy=%s%s val=%d" % (s, "" if h is None else " handle=%d" % h, val)
+    # alternate the order of the two builder calls (strategy / handle predicate): they must commute
+    _order[0] ^= 1
+    return "fallback strategy=%s%s val=%d order=%d" % (s, "" if h is None else " handle=%d" % h, val, _order[0])
 
 
 def grid_case(rng, point):
